@@ -361,18 +361,36 @@ def attemptX (env : Env J S C) (raw : Text) : Strategy → W (Call J S C) (X S C
 
 /-! ### configuration, statistics -/
 
-/-- The `strategies` constructor argument (`None` and `[]` are both falsy: represented by `[]`). -/
+/-- A Chaperone instance's configuration: the current value of its public list `self.strategies`. -/
 structure Cfg where
-  ctor : List Strategy
+  strategies : List Strategy
 
 def defaultStrategies : List Strategy := [.strict, .extraction, .lenient, .repair]
 
-/-- `self.strategies = strategies or [STRICT, EXTRACTION, LENIENT, REPAIR]` -/
-def selfStrategies (cfg : Cfg) : List Strategy := if cfg.ctor.isEmpty then defaultStrategies else cfg.ctor
+/-- the constructor: `self.strategies = strategies or [STRICT, EXTRACTION, LENIENT, REPAIR]`
+    (`None` and `[]` are both falsy: represented by `[]`); every instance gets a list of its own -/
+def Cfg.new (ctor : List Strategy) : Cfg := ⟨if ctor.isEmpty then defaultStrategies else ctor⟩
+
+/-- `self.strategies` -/
+def selfStrategies (cfg : Cfg) : List Strategy := cfg.strategies
 
 /-- `strategies = strategies or self.strategies` (the per-call override; `None`/`[]` ↦ `[]`) -/
 def effective (cfg : Cfg) (call : List Strategy) : List Strategy :=
-  if call.isEmpty then selfStrategies cfg else call
+  if call.isEmpty then cfg.strategies else call
+
+/-- in-place edits of the public list `chaperone.strategies` -/
+inductive Tune where
+  | remove (s : Strategy)       -- list.remove (first occurrence; the harness only issues it when present)
+  | reverse
+  | append (s : Strategy)
+  | clear
+  deriving DecidableEq, Repr
+
+def Cfg.tune (c : Cfg) : Tune → Cfg
+  | .remove s => ⟨c.strategies.erase s⟩
+  | .reverse => ⟨c.strategies.reverse⟩
+  | .append s => ⟨c.strategies ++ [s]⟩
+  | .clear => ⟨[]⟩
 
 structure Stats where
   total : Nat
@@ -526,6 +544,27 @@ def heal (env : Env J S C) (cfg : Cfg) (st : Stats) (decay : Rat) (maxRetries : 
   healFrom env cfg decay gen (maxRetries + 1) 0 st []
 
 end
+
+/-! ### several Chaperone instances alive at once -/
+
+structure Inst where
+  cfg : Cfg
+  stats : Stats
+
+/-- the instances of one history, in creation order -/
+abbrev World := List Inst
+
+def World.create (w : World) (ctor : List Strategy) : World := w ++ [⟨Cfg.new ctor, Stats.zero⟩]
+
+def World.tune (w : World) (i : Nat) (t : Tune) : World :=
+  match w[i]? with
+  | some x => w.set i ⟨x.cfg.tune t, x.stats⟩
+  | none => w
+
+def World.setStats (w : World) (i : Nat) (st : Stats) : World :=
+  match w[i]? with
+  | some x => w.set i ⟨x.cfg, st⟩
+  | none => w
 
 /-! ### `_coerce_types_tracked`, one level deeper
 
